@@ -16,7 +16,8 @@ RULE = ('failing evaluations only: a random target (short, long (lists of 40+ it
         'raising callable, type mismatch, MatchError, all-branches-fail) is planted at a random position; every '
         'scope[glom] call is recorded through scope={glom.glom: tracer} (parent scope identity, NO_PYFRAME flag, bbrepr '
         'of spec and target, len(), target identity, outcome); each recorded evaluation is rendered at 5 widths (50, 60, '
-        '80, 110, 200) by calling format_target_spec_trace on the real scope. non-trivial = >= 3 calls and (a branch or '
+        '80, 110, 200) by calling format_target_spec_trace on the real scope; in 12% of the cases the same target object '
+        'first went through a failing call (trace rendered) and was then changed in place. non-trivial = >= 3 calls and (a branch or '
         'a chain or a truncation); distinct = distinct (events, width)')
 TRUSTED = ['bbrepr of specs/targets and traceback.format_exception_only texts are taken as given strings']
 ASSUMPTIONS = ['the Python traceback lines appended after the trace are Python\'s (not compared)',
@@ -165,7 +166,12 @@ def generate(rng, tier, scale, **focus):
         if rng.random() < 0.08:
             # the original error has a multi-line message (blank and caret-only lines included)
             spec = {'k': rng.choice(['tuple', 'pipe']), 'xs': [spec, g.fn(rng.choice(['raise_multiline', 'nested_glom_fail']))]}
-        yield {'spec': spec, 'target': ic.enc(t), 'width': rng.choice(WIDTHS), '_gen': True}
+        case = {'spec': spec, 'target': ic.enc(t), 'width': rng.choice(WIDTHS), '_gen': True}
+        if rng.random() < 0.12:
+            # the same target object already went through a failing call (and its trace was rendered)
+            # before it was changed in place: the trace must show the target as it is NOW
+            case['stale_first'] = True
+        yield case
         made += 1
 
 
@@ -186,6 +192,15 @@ def run_impl(case):
     fns = {}
     target = ic.dec(case['target'], fns)
     spec = ic.build(case['spec'], fns)
+    if case.get('stale_first'):
+        try:
+            G.glom(target, spec)
+        except Exception as e:
+            try:
+                str(e)
+            except Exception:
+                pass
+        _mutate_in_place(target)
     rec = trace_run(target, spec)
     out = {k: v for k, v in case.items() if not k.startswith('impl') and k != '_gen'}
     if rec is None:
@@ -203,6 +218,19 @@ def run_impl(case):
         if rec2 is not None:
             out.update(rec2)
     return out
+
+
+def _mutate_in_place(target):
+    """change the root target in place so that its repr starts differently"""
+    if isinstance(target, dict):
+        items = list(target.items())
+        target.clear()
+        target['_m'] = 0
+        target.update(items)
+    elif isinstance(target, list):
+        target.insert(0, '_m')
+    elif isinstance(target, set):
+        target.add('_m')
 
 
 def trace_run_width(target, spec, width):
@@ -243,7 +271,8 @@ def _rerender(target, spec, width, rec):
 
 
 def key(case):
-    return {'events': case.get('events'), 'width': case.get('width'), 'errors': case.get('errors')}
+    return {'events': case.get('events'), 'width': case.get('width'), 'errors': case.get('errors'),
+            'stale_first': bool(case.get('stale_first'))}
 
 
 def nontrivial(case, verdict):
@@ -258,4 +287,6 @@ def shrink(case):
     from harness.props import c03
     for c in c03.shrink({'spec': case['spec'], 'target': case['target']}):
         c['width'] = case.get('width')
+        if case.get('stale_first'):
+            c['stale_first'] = True
         yield c
